@@ -60,3 +60,10 @@ META["C20"] = {
     "text": "For every generated tree/option set the returned file list and size are compared with the decoded archive (names in order, header sizes, body bytes).",
     "note": "Trusts archive/tar for decoding.",
 }
+META["C16"] = {
+    "technique": "metamorphic PBT (same tree under varied spelling, cwd, call history, packer reuse) and concurrent Pack rounds under the race detector",
+    "text": ("The decoded slug for a generated tree must be identical under 21 spellings/cwds/symlink routes, after generated call histories, and "
+             "when produced while other goroutines pack other trees (race-detector binary, concurrent phase first in each process). Two known "
+             "findings about a symlinked source path are excluded by variant and replayed."),
+    "note": "Schedules are sampled, not enumerated; a race report counts only with a go-slug frame.",
+}
